@@ -479,11 +479,37 @@ def _version_sniff(ctx):
     try:
         pg = m.func('zincparser', 'parse_grid')
         from .. import match
-        sg = match.Script(ctx, 'C03.D4', [pg], FP, '%s::parse_grid' % FP)
-        sg.seed('data', pg.args.args[0].arg)
+        # (a) the grammar of a grid is chosen by ITS OWN header: no caller hands a version in from outside
+        extra = [a.arg for a in pg.args.args[1:] if a.arg not in ('parseAll', 'parse_all')]
+        handed = []
+        for node in ast.walk(m.mod('parser').tree):
+            if isinstance(node, ast.Call):
+                fnm = norm(node.func)
+                tgt = None
+                if fnm in ('parse_zinc_grid', 'zincparser.parse_grid', 'parse_grid'):
+                    tgt = node
+                elif fnm in ('functools.partial', 'partial') and node.args and norm(node.args[0]) in ('_parse', 'parse_grid', 'parse_zinc_grid'):
+                    tgt = node
+                if tgt is not None and any(k.arg == 'version' for k in tgt.keywords):
+                    handed.append(tgt)
+        if extra and 'version' in extra and handed:
+            h0 = handed[0]
+            ctx.violation('C03.D4', 'hszinc/parser.py::parse', norm(h0)[:160],
+                          'a two-grid document whose first grid says ver:"2.0" and whose second says ver:"3.0" and holds a list (or '
+                          'NA): every grid is parsed with the version handed in by `%s` -- the version of the FIRST grid -- so the '
+                          'well-formed second grid is rejected' % norm(h0)[:60],
+                          'the ZINC grid parser takes the version from its caller instead of from the header of the grid it parses',
+                          file='hszinc/parser.py', line=h0.lineno, engine='E7')
+        elif extra and 'version' in extra:
+            ctx.ob('C03.D4', 'parse_grid has a version parameter but no caller in parser.py passes one', True, '%s:%d' % (FP, pg.lineno))
+        else:
+            ctx.ob('C03.D4', 'the ZINC grid parser takes no version from its caller: each grid is parsed by its own header', True,
+                   '%s:%d' % (FP, pg.lineno))
+        fns_ = match.with_local_callees(m, 'zincparser', pg)
+        sg = match.Script(ctx, 'C03.D4', fns_, FP, '%s::parse_grid' % FP)
         sg.need(['_R_vm = VERSION_RE.match(_R_data)'], 'the version header is sniffed from the start of the text',
                 'the version is taken from somewhere else than the header')
-        sg.need(['_R_version = Version(_R_vm.group(1))'], 'the sniffed text becomes the version',
+        sg.need(['_R_version = Version(_R_vm.group(1))', 'return Version(_R_vm.group(1))'], 'the sniffed text becomes the version',
                 'another group of the header than the version text selects the grammar')
         sg.need(['return hs_grid[_R_version].parseString(_R_data, parseAll=_R_pa)[0]',
                  'return hs_grid[_R_version].parse_string(_R_data, parse_all=_R_pa)[0]'],
